@@ -201,6 +201,24 @@ static void CmdW(const Json& cmd, JsonOut& o) {
       w.SetFault(static_cast<long>(cmd.at("fault").at("k").num()), static_cast<int>(cmd.at("fault").at("e").num(16)));
       o.key("fault"); WriteJson(cmd.at("fault"), o);
     }
+    if (cmd.has("lean")) {
+      // a large value that only serves as the source of a later command: written, not echoed
+      o.kv_bool("lean", true);
+      JsonOut scratch;
+      scratch.begin_arr();
+      for (auto& item : cmd.at("items").a) {
+        scratch.begin_obj();
+        if (const TypeOps* ops = Lookup(item.at("tid").s, scratch)) ops->write(item.at("v"), w, scratch);
+        scratch.end_obj();
+      }
+      scratch.end_arr();
+      o.key("items"); o.begin_arr(); o.end_arr();
+      o.key("out"); o.bytes(nullptr, 0);
+      o.kv_num("outlen", static_cast<long long>(w.Output().size()));
+      g_last_out = w.Output();
+      EmitLedger(o);
+      return;
+    }
     o.key("items");
     o.begin_arr();
     for (auto& item : cmd.at("items").a) {
@@ -263,7 +281,12 @@ static void CmdRCuts(const Json& cmd, JsonOut& o) {
   const std::string& tid = cmd.at("tid").s;
   o.kv_str("e", "RC");
   o.kv_str("tid", tid);
-  o.key("src"); o.bytes(src.data(), src.size());
+  // "lean": the bytes are not echoed (large inputs); "stride": s samples the cut positions of a large input - the
+  // first and last 80 positions and every s-th in between
+  const bool lean = cmd.has("lean");
+  const size_t stride = cmd.has("stride") ? static_cast<size_t>(cmd.at("stride").num(1)) : 1;
+  if (lean) { o.key("src"); o.bytes(src.data(), 0); o.kv_num("srclen", static_cast<long long>(src.size())); }
+  else { o.key("src"); o.bytes(src.data(), src.size()); }
   if (cmd.has("wtid")) o.kv_str("wtid", cmd.at("wtid").s);
   const TypeOps* ops = Lookup(tid, o);
   o.key("runs");
@@ -280,6 +303,7 @@ static void CmdRCuts(const Json& cmd, JsonOut& o) {
       for (size_t k = 0; k < src.size(); k++) {
         // a bursty pipe needs a feeder thread per run: only short encodings are swept through it
         if (base.kind == "fdburst" && src.size() > 24) break;
+        if (stride > 1 && k >= 80 && k + 80 < src.size() && (k % stride) != 0) continue;
         ReaderSpec spec = base;
         DynReader r(spec, src.data(), k);
         r.log = false;
@@ -314,7 +338,8 @@ static void CmdRFaults(const Json& cmd, JsonOut& o) {
   o.kv_str("e", "RF");
   o.kv_str("tid", tid);
   EmitRK(o, cmd.at("rk"));
-  o.key("src"); o.bytes(src.data(), src.size());
+  const bool lean = cmd.has("lean");     // large inputs: neither the bytes nor the decoded value are echoed
+  o.key("src"); o.bytes(src.data(), lean ? 0 : src.size());
   const TypeOps* ops = Lookup(tid, o);
   if (!ops) return;
   Json item;
@@ -328,8 +353,7 @@ static void CmdRFaults(const Json& cmd, JsonOut& o) {
     ops->read(item, r, tmp);
     tmp.end_obj();
     ncalls = r.ncalls();
-    o.key("base");
-    o.raw(tmp.s);
+    if (!lean) { o.key("base"); o.raw(tmp.s); }
   }
   o.key("runs");
   o.begin_arr();
@@ -412,6 +436,7 @@ static void CmdWCaps(const Json& cmd, JsonOut& o) {
   const std::string& tid = cmd.at("tid").s;
   o.kv_str("e", "WC");
   o.kv_str("tid", tid);
+  if (cmd.has("refs")) o.kv_bool("customrefs", true);
   const TypeOps* ops = Lookup(tid, o);
   if (!ops) return;
   unsigned long long size = 0;
@@ -431,6 +456,8 @@ static void CmdWCaps(const Json& cmd, JsonOut& o) {
     spec.cap = size + 4096; spec.has_cap = true;
     DynWriter w(spec);
     w.log = false;
+    // the references the writer's out-of-band channel hands back for pushed handles (their size on the wire varies)
+    if (cmd.has("refs")) for (auto& r : cmd.at("refs").a) w.refs.push_back(static_cast<int64_t>(WordOf(r)));
     o.key("ref"); o.begin_obj();
     ops->write(cmd.at("v"), w, o);
     EmitWriterState(w, o);
@@ -455,6 +482,7 @@ static void CmdWCaps(const Json& cmd, JsonOut& o) {
       }
       DynWriter w(spec);
       w.log = false;
+      if (cmd.has("refs")) for (auto& r : cmd.at("refs").a) w.refs.push_back(static_cast<int64_t>(WordOf(r)));
       JsonOut tmp;
       tmp.begin_obj();
       ops->write(cmd.at("v"), w, tmp);
